@@ -332,14 +332,9 @@ func (b *CFGBuilder) processStatement(stmt *parser.Node) {
 
 	case parser.NodeReturn:
 		// Check if the return value is a comprehension
-		if stmt.Value != nil {
-			if valNode, ok := stmt.Value.(*parser.Node); ok {
-				if valNode.Type == parser.NodeListComp || valNode.Type == parser.NodeDictComp ||
-					valNode.Type == parser.NodeSetComp || valNode.Type == parser.NodeGeneratorExp {
-					// Process the comprehension
-					b.processComprehension(valNode)
-				}
-			}
+		if valNode := statementValue(stmt); valNode != nil && isComprehensionNode(valNode) {
+			// Process the comprehension
+			b.processComprehension(valNode)
 		}
 
 		// Add return statement to current block
@@ -382,17 +377,12 @@ func (b *CFGBuilder) processStatement(stmt *parser.Node) {
 
 	case parser.NodeAssign, parser.NodeAugAssign, parser.NodeAnnAssign:
 		// Check if the assignment value is a comprehension
-		if stmt.Value != nil {
-			if valNode, ok := stmt.Value.(*parser.Node); ok {
-				if valNode.Type == parser.NodeListComp || valNode.Type == parser.NodeDictComp ||
-					valNode.Type == parser.NodeSetComp || valNode.Type == parser.NodeGeneratorExp {
-					// Process the comprehension
-					b.processComprehension(valNode)
-					// Add the assignment statement after comprehension processing
-					b.currentBlock.AddStatement(stmt)
-					return
-				}
-			}
+		if valNode := statementValue(stmt); valNode != nil && isComprehensionNode(valNode) {
+			// Process the comprehension
+			b.processComprehension(valNode)
+			// Add the assignment statement after comprehension processing
+			b.currentBlock.AddStatement(stmt)
+			return
 		}
 		// Regular assignment - just add to current block
 		b.currentBlock.AddStatement(stmt)
@@ -400,7 +390,7 @@ func (b *CFGBuilder) processStatement(stmt *parser.Node) {
 	case parser.NodeExpr:
 		// Check if the expression is a comprehension
 		if stmt.Value != nil {
-			if valNode, ok := stmt.Value.(*parser.Node); ok {
+			if valNode := statementValue(stmt); valNode != nil {
 				// Direct comprehension
 				if isComprehensionNode(valNode) {
 					b.processComprehension(valNode)
@@ -1293,6 +1283,30 @@ func (b *CFGBuilder) processMatchStatement(stmt *parser.Node) {
 
 	// Continue with merge block
 	b.currentBlock = mergeBlock
+}
+
+// statementValue returns the expression a statement evaluates, looking through
+// redundant parentheses, y = ([x for x in xs]), and chained assignment, a = b = [...]
+func statementValue(stmt *parser.Node) *parser.Node {
+	valNode, _ := stmt.Value.(*parser.Node)
+	for valNode != nil {
+		switch {
+		case valNode.Type == parser.NodeType("parenthesized_expression"):
+			var inner *parser.Node
+			for _, child := range valNode.Children {
+				if child != nil && child.Type != parser.NodeType("(") && child.Type != parser.NodeType(")") {
+					inner = child
+					break
+				}
+			}
+			valNode = inner
+		case valNode.Type == parser.NodeAssign:
+			valNode, _ = valNode.Value.(*parser.Node)
+		default:
+			return valNode
+		}
+	}
+	return nil
 }
 
 // processComprehension handles list/dict/set comprehensions and generator expressions
